@@ -155,7 +155,7 @@ func ruleC10Wait(c *Ctx) {
 		c.violate("C10.wait", "iterators", token.NoPos, "", fmt.Sprintf("expected 3 pipeline-backed iterators in package git, found %d", len(its)))
 	}
 	for _, it := range its {
-		tn := it.T.Obj().Name()
+		tn := tname(it.T.Obj())
 		if it.Next == nil {
 			c.violate("C10.wait", tn+":Next", it.Ctor.Pos(), fnName(it.Ctor), "iterator "+tn+" has no Next method")
 			continue
@@ -402,7 +402,7 @@ func ruleC10Stdout(c *Ctx) {
 func ruleC10Close(c *Ctx) {
 	// channels the consumer receives from: the receive in each iterator's Next
 	for _, it := range c.iterators() {
-		tn := it.T.Obj().Name()
+		tn := tname(it.T.Obj())
 		if it.Next == nil {
 			continue
 		}
@@ -501,7 +501,7 @@ func ruleC10Close(c *Ctx) {
 		df, isDefer := first.(*ssa.Defer)
 		okClose := false
 		if isDefer {
-			if cal := df.Call.StaticCallee(); cal != nil && cal.Name() == "Close" && pkgOf(cal) == modPath+"/git" {
+			if cal := df.Call.StaticCallee(); cal != nil && refName(cal) == "Close" && pkgOf(cal) == modPath+"/git" {
 				okClose = true
 			}
 		}
